@@ -10,33 +10,71 @@ import common
 from common import Rng
 
 PID = "C18"
-KEYS = ["type", "contraction", "grade", "dots", "system", "direction", "Display-Name", "unicode-range"]
+# plain keys; "l", "reg", "loc" are ordinary keys too (they merely begin like language / region / locale)
+KEYS = ["type", "contraction", "grade", "dots", "system", "direction", "Display-Name", "unicode-range", "l", "reg", "loc"]
 VALS = ["a", "b", "c", "A", "full", "no"]
+# language tags: the keys language and region hold tags, locale is shorthand for both; a table's tag is a RANGE (it may be
+# shorter than the queried tag, or start with the wildcard), subtags compare without case, a one-character subtag (x) stops
+LANGKEYS = ["language", "region", "locale"]
+TAGS = ["en", "en-US", "en-GB", "de", "de-CH", "fr", "EN-us", "en-x-foo", "en-Latn-US", "zh-Hant-TW", "en-US-x-twain", "en-a-b-c-d-e-f", "de-1996"]
+RANGES = TAGS + ["*", "*-US", "*-CH"]
+BADTAGS = ["en_US", "-en", "en-", "abcdefghij", "1a", "en--US", "e*"]
 
 
 def low(s):
     return s.lower()
 
 
+def is_lang(k):
+    return low(k) in ("language", "region")
+
+
+def expand(pairs):
+    """locale:x stands for language:x and region:x (tables and queries alike)"""
+    out = []
+    for k, v in pairs:
+        if low(k) == "locale":
+            out += [("language", v), ("region", v)]
+        else:
+            out.append((k, v))
+    return out
+
+
 def norm_table(feats):
-    fs = [(low(k), low(v)) for k, v in feats]
+    fs = [(low(k), low(v)) for k, v in expand(feats)]
+    if not any(k == "region" for k, _ in fs) and any(k == "language" for k, _ in fs):
+        fs.append(("region", [v for k, v in fs if k == "language"][0]))      # a table's region defaults to its first language
     if not any(k == "unicode-range" for k, _ in fs):
         fs.append(("unicode-range", "ucs2"))
     out = []
     for f in fs:
         if f not in out:
             out.append(f)
-    return sorted(out)
+    return sorted(out, key=lambda kv: (kv[0], tuple(kv[1].split("-")) if is_lang(kv[0]) else (kv[1],)))
 
 
 def norm_query(pairs):
     out = []
-    for k, v in reversed(pairs):  # parseQuery prepends, list_sort keeps the first it meets: the LAST occurrence of a key wins
+    for k, v in reversed(expand(pairs)):  # parseQuery prepends, list_sort keeps the first it meets: the LAST occurrence of a key wins
         if low(k) not in [x[0] for x in out]:
             out.append((low(k), low(v)))
     if not any(k == "unicode-range" for k, _ in out):
         out.append(("unicode-range", "ucs2"))
     return sorted(out, key=lambda x: x[0])
+
+
+_SUB = {}
+
+
+def subtag_id(t):
+    """ids by the convention of Model/Meta.v: 0 = the wildcard, 1..63 = the other one-character subtags, >= 64 longer ones"""
+    if t == "*":
+        return 0
+    if len(t) == 1:
+        return 1 + "0123456789abcdefghijklmnopqrstuvwxyz".index(t)
+    if t not in _SUB:
+        _SUB[t] = 64 + len(_SUB)
+    return _SUB[t]
 
 
 def weights():
@@ -73,10 +111,18 @@ def run(chk):
     shutil.rmtree(work, ignore_errors=True)
     work.mkdir(parents=True)
     nsets = 120 if chk.tier == "quick" else 2500
-    keyid = {k: i + 1 for i, k in enumerate(sorted(set(low(k) for k in KEYS)))}
-    allvals = sorted(set(low(v) for v in VALS) | {"ucs2", "ucs4"})
+    keyid = {k: i + 1 for i, k in enumerate(sorted(set(low(k) for k in KEYS) | {"language", "region"}))}
+    allvals = sorted(set(low(v) for v in VALS) | {"ucs2", "ucs4"} | set(low(v) for v in RANGES))
     valid = {v: i + 1 for i, v in enumerate(allvals)}
-    ids = "%d %d %d" % (keyid["unicode-range"], valid["ucs2"], valid["ucs4"])
+    ids = "%d %d %d | %d %d" % (keyid["unicode-range"], valid["ucs2"], valid["ucs4"], keyid["language"], keyid["region"])
+
+    def enc(fs):
+        """features (key, value) -> the model's  k n v..  form: a plain value is one id, a language tag its subtag ids"""
+        out = []
+        for k, v in fs:
+            vs = [subtag_id(t) for t in v.split("-")] if is_lang(k) else [valid[v]]
+            out.append("%d %d %s" % (keyid[k], len(vs), " ".join(map(str, vs))))
+        return " ".join(out)
     for si in range(nsets):
         r = rng.fork(("set", si))
         nt = r.range(1, 4)
@@ -90,12 +136,16 @@ def run(chk):
             if feats and r.chance(0.25):
                 k0 = feats[0][0]
                 feats.append((k0, r.choice(VALS) if low(k0) != "unicode-range" else "ucs4"))
+            if r.chance(0.6):
+                # one to many languages (every further language of a table costs a little), regions, locale shorthand
+                for _ in range(r.choice([1, 1, 1, 2, 3, 10, 15])):
+                    feats.append((r.choice(["language", "language", "Language", "region", "locale"]), r.choice(RANGES)))
             if not feats:
                 feats = [("type", "a")]
             r.shuffle(feats)
             if r.chance(0.2):
                 k0, v0 = feats[0]
-                if low(k0) != "unicode-range":
+                if low(k0) != "unicode-range" and low(k0) not in LANGKEYS:
                     feats = feats + [(k0, r.choice([v for v in VALS if low(v) != low(v0)])), (k0, v0)]
             p = work / ("s%d_t%d.utb" % (si, ti))
             p.write_text("".join("#+%s:%s\n" % kv for kv in feats) + "space \\s 0\n")
@@ -108,10 +158,21 @@ def run(chk):
                     q.append((k, r.choice(["ucs2", "ucs4"]) if k == "unicode-range" else r.choice(VALS)))
             if q and r.chance(0.15):
                 q.append((q[0][0], r.choice(VALS)))
+            if r.chance(0.6):
+                lk = r.choice([["language"], ["region"], ["locale"], ["language", "region"], ["Language"]])
+                q += [(k, r.choice(TAGS)) for k in lk]
             if not q:
                 q = [("type", "a")]
             r.shuffle(q)
             queries.append((" ".join("%s:%s" % kv for kv in q), q))
+        # a language query against the languages of table 0: the same tag, a more specific one, a less specific one
+        l0 = [v for k, v in expand(tabs[0][1]) if low(k) == "language" and not v.startswith("*")]
+        if l0:
+            t0 = r.choice(l0)
+            for tq in (t0, t0 + "-" + r.choice(["US", "x-foo", "Latn", "a-b"]), t0.split("-")[0]):
+                queries.append(("language:" + tq, [("language", tq)]))
+                chk.tally("aimed_language_queries")
+        queries.append(("language:" + r.choice(BADTAGS), None))
         # aimed at the boundary: a query whose score against table 0 is exactly 0 (the weights REGENERATED from the source
         # cancel), and one point to either side
         shapes = zero_score_shapes(weights())
@@ -136,9 +197,12 @@ def run(chk):
         # the exact metadata of table 0 (one value per key)
         ex = []
         for k, v in tabs[0][1]:
-            if low(k) not in [low(x[0]) for x in ex]:
+            if low(k) not in [low(x[0]) for x in ex] and "*" not in v:      # the wildcard belongs to ranges (tables), not to queries
                 ex.append((k, v))
-        exact_ok = len(set(low(k) for k, _ in tabs[0][1])) == len(set((low(k), low(v)) for k, v in tabs[0][1]))
+        exact_ok = len(set(low(k) for k, _ in tabs[0][1])) == len(set((low(k), low(v)) for k, v in tabs[0][1])) and \
+            not any("*" in v for _, v in tabs[0][1]) and not any(low(k) == "locale" for k, _ in tabs[0][1])
+        if not ex:
+            ex = [("type", "a")]
         queries.append((" ".join("%s:%s" % kv for kv in ex), ex))
         queries.append((r.choice(["type", "type:a:b", "type:a!", ":a", "type: a"]), None))
         orders = list(itertools.permutations(range(nt))) if nt <= 3 else [tuple(r.sample(range(nt), nt)) for _ in range(4)]
@@ -147,19 +211,23 @@ def run(chk):
             index = list(reversed(given))  # lou_indexTables prepends
             clines = ["I " + " ".join(p for p, _ in given)] + ["Q " + q for q, _ in queries]
             # getTableInfo on table 0
-            gk = [k for k, _ in tabs[0][1]][:2]
+            gk = [k for k, _ in tabs[0][1] if low(k) != "locale"][:2]
             clines += ["G %s %s" % (tabs[0][0], k) for k in gk]
             mlines = ["MI " + ids]
             names = {}
             for n, (p, feats) in enumerate(index):
                 names[n + 1] = p
-                mlines.append("MT %d " % (n + 1) + " ".join("%d %d" % (keyid[k], valid[v]) for k, v in norm_table(feats)))
+                mlines.append("MT %d " % (n + 1) + enc(norm_table(feats)))
             for qs, q in queries:
                 nq = norm_query(q) if q is not None else []
-                mlines.append("MQ " + " ".join("%d %d" % (keyid[k], valid[v]) for k, v in nq))
+                mlines.append("MQ " + enc(nq))
             for k in gk:
-                ent = sorted([(low(kk), low(vv), ln + 1) for ln, (kk, vv) in enumerate(tabs[0][1])] +
-                             ([] if any(low(kk) == "unicode-range" for kk, _ in tabs[0][1]) else [("unicode-range", "ucs2", -1)]))
+                lined = []
+                for ln, (kk, vv) in enumerate(tabs[0][1]):
+                    lined += [(low(k2), low(v2), ln + 1) for k2, v2 in expand([(kk, vv)])]
+                if not any(a == "region" for a, _, _ in lined) and any(a == "language" for a, _, _ in lined):
+                    lined.append(("region", [b for a, b, _ in lined if a == "language"][0], -1))
+                ent = sorted(lined + ([] if any(low(kk) == "unicode-range" for kk, _ in tabs[0][1]) else [("unicode-range", "ucs2", -1)]))
                 mlines.append("MG %d | " % keyid[low(k)] + " ".join("%d %d %d" % (keyid[a], valid[b], c) for a, b, c in ent))
             rc, out, err = common.sh([str(exe)], input="\n".join(clines) + "\n", env=common.ASAN_ENV)
             co = out.strip().split("\n")
@@ -209,7 +277,7 @@ def run(chk):
     chk.cov["checker_cmd"] = "make -C coq Properties/C18.vo (coqc 8.16.1)"
     chk.cov["trusted_base"] = common.TRUSTED_COMMON + [
         "tools/gen/g_meta.py (weights and comparison directions)",
-        "header/query tokenisation and the default unicode-range feature are reproduced in props/c18.py, not in the Coq model; language-tag keys (language, region, locale) are outside the model"]
+        "header/query tokenisation (incl. the expansion of locale into language + region, the split of a tag into subtags and the default unicode-range feature) is reproduced in props/c18.py, not in the Coq model"]
     if not prove["ok"] and not chk.violations:
         chk.violation("proof", "Properties/C18.v no longer checks: %s" % prove["failed"][:5],
                       dict(no_failing_input=True, broken=prove["failed"], log=prove["log"][-1500:], gen=gen))
